@@ -730,17 +730,18 @@ func init() {
 			}
 			var amp, eq []string
 			var ampPos, eqPos token.Pos
-			for _, b := range f.Blocks {
-				for _, ins := range b.Instrs {
-					call, ok := ins.(*ssa.Call)
-					if !ok {
-						continue
-					}
+			// the strings.* calls of init, looking through module helpers (a local cut(s, sep) for instance)
+			for _, x := range expandCalls(c, f, func(g *ssa.Function) bool { return c.P.InModule(g) }, 2) {
+				{
+					call := x.Call
 					cl := call.Common().StaticCallee()
 					if cl == nil || core.PkgPathOf(cl) != "strings" {
 						continue
 					}
-					args := call.Common().Args
+					var args []ssa.Value
+					for _, a := range call.Common().Args {
+						args = append(args, x.Root(a))
+					}
 					sep := ""
 					if len(args) >= 2 {
 						if k, ok := args[1].(*ssa.Const); ok && k.Value != nil {
